@@ -277,12 +277,13 @@ TWIN_SET = "X03:AssignmentSet.encode_item:str-item-is-json-text-of-unhashable-it
 
 
 class MapEnv:
-    def __init__(self, uni, cfg):
+    def __init__(self, uni, cfg, real_cfg=None):
         self.uni, self.cfg = uni, cfg
+        self.real = real_cfg or cfg          # (selftest only) the family handed to the real code
         self.run_keys = sorted(set(cfg["keys"]) | {p[0] for o in cfg["others"] for p in o})
 
     def pairs(self, j, rev):
-        return [(self.uni.key(k, rev), v) for k, v in self.cfg["others"][j - 1]]
+        return [(self.uni.key(k, rev), v) for k, v in self.real["others"][j - 1]]
 
     def other_keys(self, j):
         return [k for k, _ in self.cfg["others"][j - 1]]
@@ -296,7 +297,7 @@ class MapEnv:
     def build_arg(self, j, variant):
         """the j-th map of the family as update / merge argument(s): list of positional mappings + kwargs."""
         from msdm.core.assignment import AssignmentMap, DefaultAssignmentMap
-        raw = self.cfg["others"][j - 1]
+        raw = self.real["others"][j - 1]
         rev = variant == 1
 
         def mapping(chunk, alt):
@@ -419,7 +420,12 @@ def replay_map(ctx, env, rec, variant, prev_items, mut=None, drop=None):
     cls = AssignmentMap if mode == "plain" else DefaultAssignmentMap
     if init:
         pairs = env.pairs(init, rev)
-        st, am = call(lambda: cls(*args, pairs if variant == 0 else iter(pairs)))
+        kw = {}
+        if variant == 1 and isinstance(pairs[-1][0], str) and pairs[-1][0].isidentifier() \
+                and all(canon(k) != canon(pairs[-1][0]) for k, _ in pairs[:-1]):
+            kw = {pairs[-1][0]: pairs[-1][1]}          # a trailing identifier key goes through **kwargs
+            pairs = pairs[:-1]
+        st, am = call(lambda: cls(*args, pairs if variant == 0 else iter(pairs), **kw))
     else:
         st, am = call(lambda: cls(*args))
     ctx.evaluations += 1
@@ -596,11 +602,11 @@ def pick(variants, thin, n, length, maxlen):
     return (variants[n % len(variants)],) if thin and length == maxlen and maxlen > 1 else variants
 
 
-def run_map(ctx, cfg, tag, variants=(0, 1), mut=None, drop=None, only=None, tlc=None, thin=False):
+def run_map(ctx, cfg, tag, variants=(0, 1), mut=None, drop=None, only=None, tlc=None, thin=False, real_cfg=None):
     res, uni, recs, what = tlc if tlc is not None else tlc_container(ctx, "X03_AssignMap", MAP_CFG, cfg, tag, "")
     ctx.add_tlc(res, f"AssignmentMap machine {tag}: all operation sequences of length <= {cfg['maxlen']} over keys "
                      f"{cfg['keys']} x values {cfg['vals']} x modes {cfg['modes']} x initial maps {cfg['inits']}")
-    env = MapEnv(uni, cfg)
+    env = MapEnv(uni, cfg, real_cfg)
     by_key = {rec_key_map(r): r for r in recs}
     recs.sort(key=lambda r: len(r["hist"]))
     failed = set()
@@ -1051,6 +1057,8 @@ def replay_join(ctx, rec, variant, mut=None, drop=None):
     if fails:
         return fails
     rels = [rel(R) for R in rec["rels"]]
+    if variant == 1:
+        rels = [tuple(R) for R in rels]            # any iterable of rows is a relation
     if drop is not None and rels:
         rels = rels[:-1]
     st, out = call(lambda: list(natural_join(*rels)))
@@ -1254,10 +1262,10 @@ def run(ctx):
         for i, (track, maxlen, size, dirs) in enumerate(dicts):
             jobs.append(("dict", f"{track}{i}", (track, maxlen, size, dirs),
                          _POOL.submit(tlc_dict, ctx, track, maxlen, size, dirs, f"{track}{i}", "")))
-        timing = ctx.extra.setdefault("replay_wall_s", {})
+        timing = ctx.extra.setdefault("replay_cpu_s", {})
         for part, tag, cfg, fut in jobs:
             tlc = fut.result()
-            t0 = time.time()
+            t0 = time.process_time()
             thin = ctx.tier == "quick"
             if part == "map":
                 run_map(ctx, cfg, tag, tlc=tlc, thin=thin)
@@ -1265,7 +1273,7 @@ def run(ctx):
                 run_set(ctx, cfg, tag, tlc=tlc, thin=thin)
             else:
                 run_dict(ctx, *cfg, tag, tlc=tlc, thin=thin)
-            timing[f"{part}:{tag}"] = round(time.time() - t0, 2)
+            timing[f"{part}:{tag}"] = round(time.process_time() - t0, 2)
         probe_unspecified(ctx)
     ctx.exhaustive = True
 
@@ -1327,7 +1335,7 @@ def selftest(ctx):
                 if kind != kind_wanted:
                     return value
                 state["n"] += 1
-                if state["n"] % 5 != 1:
+                if state["n"] % 23 != 1:
                     return value
                 if kind == "projection":
                     value = dict(value)
@@ -1354,10 +1362,7 @@ def selftest(ctx):
         swapped = dict(mcfg, others=[list(o) for o in MAP_OTHERS])
         swapped["others"][3] = [[8, 1], [10, 1]]
 
-        def other_instance():
-            tlc = tlc_container(ctx, "X03_AssignMap", MAP_CFG, mcfg, "st3", "")
-            run_map(ctx, swapped, "st3", tlc=tlc)
-        attempt("map (3) family map differs from the one TLC judged", other_instance)
+        attempt("map (3) family map differs from the one TLC judged", lambda: run_map(ctx, mcfg, "st3", real_cfg=swapped))
         attempt("set (1) corrupted __contains__ result", lambda: run_set(ctx, scfg, "st4", mut=flip("has")))
         attempt("set (2) one call not executed", lambda: run_set(ctx, scfg, "st5", drop=0))
         attempt("dict (1) corrupted dict_match result", lambda: run_dict(ctx, "chain", 2, "small", "both", "st6", mut=flip("match")))
